@@ -28,6 +28,8 @@ def run(chk):
         out = cl.run_scenarios(binary, sc + extremes, wd, "c10" + label)
         outs, pfl = cl.validate_conn(chk, out, wd, "c10" + label, shard=200, ppt=ppt, rcm=rcm)
         cl.report_conn(chk, outs, pfl, {"P10"}, {k: v + " (%s build)" % label for k, v in WHAT.items()})
+        if label == "debug":
+            cl.validate_stream(chk, out, wd, "c10" + label, ppt=ppt, rcm=rcm)
         total += len(outs)
     chk.cov["traces_validated_against_impl"] = total
     chk.cov["evaluations"] = total
